@@ -132,3 +132,21 @@ def dense_cells(rng, cfg_prefix):
     if "bounded" in base:
         ov["CoulombCellBounding"] = {"number_event_handlers": n + 2}
     return {"ini": cfg_prefix + base, "overrides": ov}
+
+
+def water_motion(rng, cfg_prefix):
+    """the shipped dipole_motion.ini (root/leaf mode switching, root-mode pair events, liftings between molecules) run with
+    THREE-site molecules (weights 1/3, inexact in binary64): water geometry and factor file, a box that fits the molecules"""
+    n = rng.randint(3, 4)
+    ov = {"FactorTypeMaps": {"filename": "config_files/factor_set_files/factor_set_water.txt"},
+          "RandomInputHandler": {"random_node_creator": "water_random_node_creator", "number_of_root_nodes": n},
+          "WaterRandomNodeCreator": {"charge_values": "electric_charge_values (charge_values)"},
+          "ElectricChargeValues": {"charge_values": "0.41, -0.82, 0.41"},
+          "HypercubicSetting": {"system_length": rng.choice([5.0, 6.0])},
+          "HarmonicPotential": {"equilibrium_separation": 1.012, "prefactor": rng.choice([100, 200])},
+          "FinalTimeEndOfRunEventHandler": {"end_of_run_time": rng.choice([20, 35])},
+          "InitialChainStartOfRunEventHandler": {"speed": rng.choice([1.0, 0.7, 1.3])},
+          "CoulombLeaf": {"number_event_handlers": n}, "CoulombRoot": {"number_event_handlers": n},
+          "HarmonicLeaf": {"number_event_handlers": 3}, "RepulsiveLeaf": {"number_event_handlers": 9 * n},
+          "RepulsiveRoot": {"number_event_handlers": 9 * n}}
+    return {"ini": cfg_prefix + "dipoles/dipole_motion.ini", "overrides": ov}
